@@ -289,17 +289,19 @@ def _cmp(l, op):
 # numeric proxies
 # ----------------------------------------------------------------------------------------
 def _isnum(x):
-    return isinstance(x, (int, float, Fraction, SymNum))  # SymFrac is handled by its own (reflected) operators
+    return isinstance(x, (int, float, Fraction, SymNum, SymBool))  # SymFrac is handled by its own (reflected) operators
 
 
 def lin_of(x):
     if isinstance(x, SymNum):
         return x.lin
+    if isinstance(x, SymBool):
+        return Lin.const(1 if cur().branch(x) else 0)  # bool used as a number: decide it on the path
     return Lin.const(x)
 
 
 def is_intlike(x):
-    return isinstance(x, SymInt) or (isinstance(x, int))
+    return isinstance(x, (SymInt, SymBool)) or (isinstance(x, int))
 
 
 class SymNum(object):
@@ -651,10 +653,22 @@ class SymReal(SymNum):
         raise ModelGap("int() of a symbolic float outside a modelled call")
 
     def __floordiv__(self, o):
-        raise ModelGap("float floordiv")
+        # float // number = floor(self / o) as a float
+        q = self / o
+        if isinstance(q, SymFrac):
+            q = q.mat()
+        return SymReal(cur().aux_floor(q.lin)) if isinstance(q, SymNum) else q
+
+    def __rfloordiv__(self, o):
+        q = o / self
+        if isinstance(q, SymFrac):
+            q = q.mat()
+        return SymReal(cur().aux_floor(q.lin)) if isinstance(q, SymNum) else q
 
     def __mod__(self, o):
-        raise ModelGap("float mod")
+        if isinstance(o, (int, float, Fraction)) and not isinstance(o, bool) and o != 0:
+            return self - (self // o) * o
+        raise ModelGap("float mod by a symbolic value")
 
     def is_integer(self):
         raise ModelGap("is_integer")
@@ -778,6 +792,7 @@ class Engine(object):
         self.witness_dirty = False
         self.qp_memo = {}
         self.pm = {}  # per-path scratch memo for the models
+        self.model_hints = []
         self.ivl = {}  # var id -> (lo, hi) interval known from the value box (None = unbounded)
 
     # ------------------------------------------------------------------ variables
@@ -1353,6 +1368,20 @@ class Engine(object):
         if r == z3.sat:
             m = self.last_model()
             basevals = self._model_to_base(m)
+            # prefer a counter-example from the harness's "robust" sub-box (moderate magnitudes, wide spans, dyadic values):
+            # it replays on the float code without boundary effects; any model of the same query is an equally valid witness
+            hints = [h for h in getattr(self, "model_hints", []) if h is not True]
+            if hints:
+                self.hints_used = True
+            if hints and not self.deferred:
+                try:
+                    zh = [_b(h).z3(self) for h in hints if h is not False]
+                    r2 = self.solver.check(*(list(za) + [znot] + zh))
+                    if r2 == z3.sat:
+                        basevals = self._model_to_base(self.solver.model())
+                        self._robust = True
+                except (z3.Z3Exception, ModelGap):
+                    pass
             if self.deferred and self.stats.__dict__.get("requeries", 0) >= 3:
                 # enough candidates were already re-decided in this configuration: keep this one for the replay only
                 st.checks_sat += 1
@@ -1376,7 +1405,10 @@ class Engine(object):
                     return "unknown"
                 basevals = bv
             st.checks_sat += 1
-            self.findings.append(dict(check=name, inputs={k: str(v) for k, v in basevals.items()}, deferred=len(self.deferred), info=info, prefix=[]))
+            rob = bool(getattr(self, "_robust", False)) or not getattr(self, "model_hints", [])
+            self._robust = False
+            if rob or sum(1 for f in self.findings if not f.get("robust")) < self.max_findings:
+                self.findings.append(dict(check=name, inputs={k: str(v) for k, v in basevals.items()}, deferred=len(self.deferred), info=info, prefix=[], robust=rob))
             return "sat"
         st.checks_unknown += 1
         st.gaps.append("unknown on check %s" % name)
@@ -1449,7 +1481,8 @@ class Engine(object):
                     st.gaps.append(str(e))
             except BoundExceeded as e:
                 st.gaps.append("bound exceeded: %s" % e)
-            if len(self.findings) >= self.max_findings:
+            nrob = sum(1 for f in self.findings if f.get("robust"))
+            if nrob >= 3 and len(self.findings) >= 3 or (len(self.findings) >= self.max_findings and not getattr(self, "hints_used", False)) or len(self.findings) >= 4 * self.max_findings:
                 st.gaps.append("stopped after %d candidate counter-examples (%d work items not explored)" % (len(self.findings), len(self.work)))
                 break
             if st.paths >= max_paths:
